@@ -102,6 +102,9 @@ class FIXSRC(cccc.Stream):
 
         ng = self.fc["ngroup"]
         nz = self.fc["nintk"]
+        if "r" in self._fileMode:
+            # when reading, the data array can only be sized once the file control record is known
+            self.fixSrc = np.zeros((self.fc["ninti"], self.fc["nintj"], nz, ng))
         for g in range(ng):
             for z in range(nz):
                 self._rw3DRecord(g, z)
